@@ -171,7 +171,11 @@ class Ctx:
         except subprocess.TimeoutExpired:
             raise Infra("harness mode %s timed out after %ds" % (mode, timeout))
         if p.returncode != 0:
-            raise Infra("harness mode %s failed (rc=%d):\n%s\n%s" % (mode, p.returncode, p.stdout[-4000:], p.stderr[-4000:]))
+            err = p.stderr if len(p.stderr) < 6000 else p.stderr[:2500] + "\n[...]\n" + p.stderr[-2500:]
+            ex = Infra("harness mode %s failed (rc=%d):\n%s\n%s" % (mode, p.returncode, p.stdout[-2000:], err))
+            ex.progress = [int(x) for x in re.findall(r"PROGRESS (\d+)", p.stderr)]
+            ex.fatal = bool(re.search(r"fatal error|goroutine stack exceeds|^panic:|signal SIG", p.stderr, re.M))
+            raise ex
         lines = [l for l in p.stdout.splitlines() if l.startswith("{")]
         if not lines:
             raise Infra("harness mode %s printed no summary:\n%s\n%s" % (mode, p.stdout[-2000:], p.stderr[-2000:]))
@@ -524,6 +528,9 @@ def binding_selftest(ctx, module, cfg, trace_path, corruptions):
             ok = True
             break
         if not ok:
+            if ctx.violations:
+                # the recorded executions already disagree with the specification; the self-test is moot
+                continue
             raise Infra("binding self-test %s: no recorded trace could be corrupted" % tag)
         done.append(tag)
     ctx.cov["binding_selftests_rejected"] = ctx.cov.get("binding_selftests_rejected", []) + done
